@@ -1,3 +1,266 @@
-import NxModel.Bytes
-/-! driver stub for C15 (replaced when the property's model lands) -/
-def main : IO Unit := IO.println "stub C15"
+import NxModel.Nex.StreamsGeneric
+import NxModel.Nex.Common
+import NxModel.Nex.Errors
+import NxModel.Nex.DateTime
+import NxModel.Nex.StationURL
+import NxModel.DriverUtil
+/-! line-protocol driver for the NEX value models (C15)
+
+value syntax (prefix tokens):  nat `123` | int `-5` | bool `T`/`F` | string `N` / `s<hex of utf-8>` | bytes `x<hex>`
+  | variant `V0` `Vi <int>` `Vd <bits>` `Vb T|F` `Vs s<hex>` `Vt <nat>` | list `L <n> v…` | map `M <n> k v …`
+type syntax (prefix tokens): u8 … variant | `list T` | `map K V`
+
+  w <pid> <type> | <value>            -> ok <hex> | err <Name>
+  r <pid> <type> | <hex>              -> ok <value> | <resthex>  | err <Name>
+  dt.fields v / dt.make y mo d h mi s / dt.ts off v / dt.from off t / dt.civil z / dt.days y m d
+  url.repr <scheme> <n> (<key> <val>)*          (strings as s<hex>, ints as i<int>)
+  url.parse N|s<hex>     url.get <field> <scheme> <n> (<key> <val>)*    url.w … / url.r <hex>
+  res <code>  -> isError isSuccess mkError mkSuccess ;  res.name <code> ; res.named s<hex> ; errtab.add <code> s<hex> ; errtab.check
+  struct.w T|F <n> (<ver> x<hex>)* ;  struct.r T|F <n> <k1..kn> <hex>
+  any.w N|s<hex> x<hex> ; any.r <hex> ; holder.null T|F <hex>
+-/
+open Nx Nx.Nex
+
+def parseStr (t : String) : Option (Option String) :=
+  if t = "N" then some none
+  else if t.startsWith "s" then
+    match fromHex (if t.length = 1 then "-" else (t.drop 1).toString) with
+    | some b => (utf8Dec b).map (fun cs => some (String.ofList cs))
+    | none => none
+  else none
+
+def parseBytes (t : String) : Option Bytes :=
+  if t.startsWith "x" then fromHex (if t.length = 1 then "-" else (t.drop 1).toString) else none
+
+def showStr : Option String → String
+  | none => "N"
+  | some s => "s" ++ toHex (utf8Enc s.toList)
+
+def showBytes (b : Bytes) : String := "x" ++ toHex b
+def showBool (b : Bool) : String := if b then "T" else "F"
+
+partial def parseTy : List String → Option (Ty × List String)
+  | "list" :: r => do let (t, r) ← parseTy r; pure (.list t, r)
+  | "map" :: r => do let (k, r) ← parseTy r; let (v, r) ← parseTy r; pure (.map k v, r)
+  | t :: r =>
+    let base : Option Ty := match t with
+      | "u8" => some .u8 | "u16" => some .u16 | "u32" => some .u32 | "u64" => some .u64
+      | "s8" => some .s8 | "s16" => some .s16 | "s32" => some .s32 | "s64" => some .s64
+      | "bool" => some .bool | "double" => some .double | "float" => some .float
+      | "string" => some .string | "buffer" => some .buffer | "qbuffer" => some .qbuffer
+      | "pid" => some .pid | "result" => some .result | "datetime" => some .datetime | "variant" => some .variant
+      | _ => none
+    base.map (·, r)
+  | [] => none
+
+def parseVariant : List String → Option (Variant × List String)
+  | "V0" :: r => some (.none, r)
+  | "Vi" :: v :: r => v.toInt?.map (fun x => (.int x, r))
+  | "Vd" :: v :: r => v.toNat?.map (fun x => (.double x, r))
+  | "Vb" :: v :: r => if v = "T" then some (.bool true, r) else if v = "F" then some (.bool false, r) else none
+  | "Vs" :: v :: r => match parseStr v with
+    | some (some s) => some (.str s, r)
+    | _ => none
+  | "Vt" :: v :: r => v.toNat?.map (fun x => (.datetime x, r))
+  | _ => none
+
+partial def parseVal : Ty → List String → Option (Val × List String)
+  | .list t, "L" :: n :: r => do
+    let n ← n.toNat?
+    let rec go (k : Nat) (acc : List Val) (r : List String) : Option (List Val × List String) :=
+      if k = 0 then some (acc.reverse, r) else do
+        let (v, r) ← parseVal t r
+        go (k - 1) (v :: acc) r
+    let (l, r) ← go n [] r
+    pure (.list l, r)
+  | .map kt vt, "M" :: n :: r => do
+    let n ← n.toNat?
+    let rec goM (k : Nat) (acc : List (Val × Val)) (r : List String) : Option (List (Val × Val) × List String) :=
+      if k = 0 then some (acc.reverse, r) else do
+        let (a, r) ← parseVal kt r
+        let (b, r) ← parseVal vt r
+        goM (k - 1) ((a, b) :: acc) r
+    let (l, r) ← goM n [] r
+    pure (.map l, r)
+  | .variant, r => do let (v, r) ← parseVariant r; pure (.variant v, r)
+  | .bool, t :: r => if t = "T" then some (.bool true, r) else if t = "F" then some (.bool false, r) else none
+  | .string, t :: r => (parseStr t).map (fun s => (.str s, r))
+  | .buffer, t :: r => (parseBytes t).map (fun s => (.bytes s, r))
+  | .qbuffer, t :: r => (parseBytes t).map (fun s => (.bytes s, r))
+  | .s8, t :: r => t.toInt?.map (fun x => (.int x, r))
+  | .s16, t :: r => t.toInt?.map (fun x => (.int x, r))
+  | .s32, t :: r => t.toInt?.map (fun x => (.int x, r))
+  | .s64, t :: r => t.toInt?.map (fun x => (.int x, r))
+  | _, t :: r => t.toNat?.map (fun x => (.nat x, r))
+  | _, [] => none
+
+def showVariant : Variant → String
+  | .none => "V0"
+  | .int v => s!"Vi {v}"
+  | .double v => s!"Vd {v}"
+  | .bool b => "Vb " ++ showBool b
+  | .str s => "Vs " ++ showStr (some s)
+  | .datetime v => s!"Vt {v}"
+
+partial def showVal : Val → String
+  | .nat n => toString n
+  | .int v => toString v
+  | .bool b => showBool b
+  | .str s => showStr s
+  | .bytes b => showBytes b
+  | .variant v => showVariant v
+  | .list l => " ".intercalate (s!"L {l.length}" :: l.map showVal)
+  | .map m => " ".intercalate (s!"M {m.length}" :: m.map (fun p => showVal p.1 ++ " " ++ showVal p.2))
+
+def showRes (r : Except Err String) : String :=
+  match r with
+  | .ok s => "ok " ++ s
+  | .error e => "err " ++ e.name
+
+open StationURL in
+def parsePVal (t : String) : Option PVal :=
+  if t.startsWith "i" then (t.drop 1).toString.toInt?.map PVal.i
+  else match parseStr t with
+    | some (some s) => some (.s s.toList)
+    | _ => none
+
+open StationURL in
+def showPVal : PVal → String
+  | .s v => showStr (some (String.ofList v))
+  | .i v => s!"i{v}"
+
+open StationURL in
+def parseURL : List String → Option (URL × List String)
+  | sch :: n :: r => do
+    let some (some sch) := parseStr sch | none
+    let n ← n.toNat?
+    let rec go : Nat → List (Str × PVal) → List String → Option (List (Str × PVal) × List String)
+      | 0, acc, r => some (acc.reverse, r)
+      | k + 1, acc, kk :: vv :: r => do
+        let some (some kk) := parseStr kk | none
+        let vv ← parsePVal vv
+        go k ((kk.toList, vv) :: acc) r
+      | _, _, _ => none
+    let (ps, r) ← go n [] r
+    pure (⟨sch.toList, ps⟩, r)
+  | _ => none
+
+open StationURL in
+def showURL (u : URL) : String :=
+  " ".intercalate (showStr (some (String.ofList u.scheme)) :: toString u.params.length ::
+    u.params.map (fun p => showStr (some (String.ofList p.1)) ++ " " ++ showPVal p.2))
+
+def nameOfStr (s : String) : Name := strName s
+def strOfName (n : Name) : String := String.ofList (n.map Char.ofNat)
+
+def splitBar (ts : List String) : List String × List String :=
+  (ts.takeWhile (· ≠ "|"), (ts.dropWhile (· ≠ "|")).drop 1)
+
+def step (tbl : ErrTable) (line : String) : ErrTable × String :=
+  let ts := words line
+  match ts with
+  | "w" :: pid :: rest =>
+    let (tyT, valT) := splitBar rest
+    (tbl, match pid.toNat?, parseTy tyT with
+    | some pid, some (ty, []) =>
+      (match parseVal ty valT with
+      | some (v, []) => showRes ((wVal pid ty v).map hexOut)
+      | _ => "bad-op")
+    | _, _ => "bad-op")
+  | "r" :: pid :: rest =>
+    let (tyT, valT) := splitBar rest
+    (tbl, match pid.toNat?, parseTy tyT, valT with
+    | some pid, some (ty, []), [h] =>
+      (match fromHex h with
+      | some b => showRes ((rVal pid ty b).map (fun (v, r) => showVal v ++ " | " ++ hexOut r))
+      | none => "bad-op")
+    | _, _, _ => "bad-op")
+  | ["dt.fields", v] => (tbl, match v.toNat? with
+    | some v => let f := DateTime.fields v; s!"ok {f.year} {f.month} {f.day} {f.hour} {f.minute} {f.second}"
+    | none => "bad-op")
+  | ["dt.make", y, mo, d, h, mi, s] => (tbl, match y.toNat?, mo.toNat?, d.toNat?, h.toNat?, mi.toNat?, s.toNat? with
+    | some y, some mo, some d, some h, some mi, some s => s!"ok {DateTime.make ⟨y, mo, d, h, mi, s⟩}"
+    | _, _, _, _, _, _ => "bad-op")
+  | ["dt.ts", off, v] => (tbl, match off.toInt?, v.toNat? with
+    | some off, some v => showRes ((DateTime.timestamp off v).map toString)
+    | _, _ => "bad-op")
+  | ["dt.from", off, t] => (tbl, match off.toInt?, t.toInt? with
+    | some off, some t => showRes ((DateTime.fromTimestamp off t).map toString)
+    | _, _ => "bad-op")
+  | ["dt.civil", z] => (tbl, match z.toNat? with
+    | some z => let (y, m, d) := DateTime.civilOfDays z; s!"ok {y} {m} {d}"
+    | none => "bad-op")
+  | ["dt.days", y, m, d] => (tbl, match y.toNat?, m.toNat?, d.toNat? with
+    | some y, some m, some d => s!"ok {DateTime.daysOfCivil y m d}"
+    | _, _, _ => "bad-op")
+  | "url.repr" :: rest => (tbl, match parseURL rest with
+    | some (u, []) => "ok " ++ showStr (some (String.ofList (StationURL.repr u)))
+    | _ => "bad-op")
+  | ["url.parse", s] => (tbl, match parseStr s with
+    | some s => showRes ((StationURL.parse (s.map String.toList)).map showURL)
+    | none => "bad-op")
+  | "url.get" :: field :: rest => (tbl, match parseStr field, parseURL rest with
+    | some (some f), some (u, []) => showRes ((StationURL.getitem u f.toList).map showPVal)
+    | _, _ => "bad-op")
+  | "url.w" :: rest => (tbl, match parseURL rest with
+    | some (u, []) => showRes ((StationURL.wStationURL u).map hexOut)
+    | _ => "bad-op")
+  | ["url.r", h] => (tbl, match fromHex h with
+    | some b => showRes ((StationURL.rStationURL b).map (fun (u, r) => showURL u ++ " | " ++ hexOut r))
+    | none => "bad-op")
+  | ["res", c] => (tbl, match c.toNat? with
+    | some c => s!"ok {showBool (Result.isError c)} {showBool (Result.isSuccess c)} {Result.mkError c} {Result.mkSuccess c}"
+    | none => "bad-op")
+  | ["res.name", c] => (tbl, match c.toNat? with
+    | some c => "ok " ++ showStr (some (strOfName (Result.name tbl c)))
+    | none => "bad-op")
+  | ["res.named", s] => (tbl, match parseStr s with
+    | some (some s) => showRes ((Result.errorNamed tbl (nameOfStr s)).map toString)
+    | _ => "bad-op")
+  | ["errtab.add", c, s] => (match c.toNat?, parseStr s with
+    | some c, some (some s) => (tbl ++ [(c, nameOfStr s)], "ok")
+    | _, _ => (tbl, "bad-op"))
+  | ["errtab.check"] => (tbl, s!"ok {showBool (checkTable tbl)} {tbl.length} {(firstDup (tbl.map (·.1))).map (fun p => s!"{p.1},{p.2}") |>.getD "-"} {(firstDup (tbl.map (·.2))).map (fun p => s!"{p.1},{p.2}") |>.getD "-"}")
+  | "struct.w" :: hdr :: n :: rest => (tbl, match n.toNat? with
+    | some n =>
+      let rec go : Nat → List (Nat × Bytes) → List String → Option (List (Nat × Bytes))
+        | 0, acc, [] => some acc.reverse
+        | k + 1, acc, v :: b :: r => (match v.toNat?, parseBytes b with
+          | some v, some b => go k ((v, b) :: acc) r
+          | _, _ => none)
+        | _, _, _ => none
+      (match go n [] rest with
+      | some lv => showRes ((wStruct (hdr = "T") lv).map hexOut)
+      | none => "bad-op")
+    | none => "bad-op")
+  | "struct.r" :: hdr :: n :: rest => (tbl, match n.toNat? with
+    | some n =>
+      let ks := (rest.take n).filterMap String.toNat?
+      (match rest.drop n with
+      | [h] => (match fromHex h with
+        | some b =>
+          if ks.length ≠ n then "bad-op" else
+          let loaders : List (Nat → Bytes → Except Err ((Nat × Bytes) × Bytes)) :=
+            ks.map (fun k => fun ver bs => match rd k bs with
+              | .ok (x, r) => .ok ((ver, x), r)
+              | .error e => .error e)
+          showRes ((rStruct (hdr = "T") loaders b).map (fun (l, r) =>
+            " ".intercalate (l.map (fun p => s!"{p.1} {showBytes p.2}")) ++ " | " ++ hexOut r))
+        | none => "bad-op")
+      | _ => "bad-op")
+    | none => "bad-op")
+  | ["any.w", name, payload] => (tbl, match parseStr name, parseBytes payload with
+    | some name, some p => showRes ((wAnyData name p).map hexOut)
+    | _, _ => "bad-op")
+  | ["any.r", h] => (tbl, match fromHex h with
+    | some b => showRes ((rAnyData b).map (fun ((n, p), r) => showStr n ++ " " ++ showBytes p ++ " | " ++ hexOut r))
+    | none => "bad-op")
+  | ["holder.null", hdr, h] => (tbl, match fromHex h with
+    | some b =>
+      let reg : Option String → Option (Bytes → Except Err (Unit × Bytes)) := fun n =>
+        if n = some "NullData" then some (rNullData (hdr = "T")) else none
+      showRes ((rDataHolder reg b).map (fun ((n, _), r) => showStr n ++ " | " ++ hexOut r))
+    | none => "bad-op")
+  | _ => (tbl, "bad-op")
+
+def main : IO Unit := runState ([] : ErrTable) step
